@@ -452,8 +452,8 @@ def apply_fn(name, args):
     if name in ('max', 'min'):
         if len(args) < 2:
             raise MathErr('arity')
-        if not all(a.is_real() for a in args):
-            raise MathErr('domain')
+        if any(a.ct for a in args):
+            raise Skip('max/min of a complex-typed value')        # a Python complex is unordered even when real-valued (C15)
         keyed = [(a.ex[0] if a.ex is not None else a.ap.real, a) for a in args]
         ks = sorted(float(k) for k, _ in keyed)
         for p, q in zip(ks, ks[1:]):
